@@ -1,5 +1,6 @@
 import TunnoxModel.Model.Sched
 import TunnoxModel.Gen.C16
+import TunnoxModel.Model.C02
 /-!
 # C16 — shutdown paths run exactly once: executable models (core Lean only)
 
@@ -356,5 +357,26 @@ def sFuel (ops : List (Bool × Nat)) (n : Nat) : Nat := (ops.map (fun o => o.2 +
 
 def sFinal (v : Variant) (ops : List (Bool × Nat)) (n : Nat) (s : Schedule) : Cfg SShared SLocal :=
   run (sProg v) (s ++ rounds (ops.length + n) (sFuel ops n)) (sInit ops n)
+
+/-! ## Data in flight: the copy loop's byte counter feeds the final report
+
+`Bridge.CopyWithControl` is the model of C02 (`C02.copy`: read script, write script, batching of
+the byte counter, periodic context check, final flush).  Whatever ends the loop — EOF, endpoint
+error, `Bridge.Close` closing the endpoints, cancellation of the parent context noticed by the
+periodic check — `Bridge.Start`'s `closeOnce` then runs `Bridge.Close`, whose cleanup reports the
+counter; the periodic goroutine's final report races with it (`rRound`, two reporters). -/
+
+structure FlowIn where
+  reads : List C02.ReadEv
+  writes : List C02.WriteEv
+
+/-- State of the source→target copy loop when it has returned. -/
+def flowCopy (i : FlowIn) : C02.St := (C02.copy none i.reads i.writes {}).1
+
+/-- Shared report state after cleanup's report and the periodic goroutine's final report. -/
+def flowReportOf (counter : Nat) (s₂ : Schedule) : RShared :=
+  rRound .repaired rInit ⟨counter, 0, 2, s₂⟩
+
+def flowReport (i : FlowIn) (s₂ : Schedule) : RShared := flowReportOf (flowCopy i).counter s₂
 
 end Tunnox.C16
